@@ -362,10 +362,14 @@ func runConfigConcurrent(c *cctx, k int) {
 	wg.Wait()
 	c.calls += g * 300
 	ctr["config.concurrent_calls"] += g * 300
+	label := f.name
+	if mixed { // several decoders ran at once: the one named by the case is not necessarily the culprit
+		label = "mixed-decoders"
+	}
 	rp := map[string]any{"goroutines": g, "function": f.name, "mixed": mixed, "prefix": prefix, "input": d}
 	if len(panics) > 0 {
 		rp["panics"] = panics
-		rec.Violation(c.idx, "panic/"+f.name+"/concurrent-shared-input", "a decoder panicked when "+fmt.Sprint(g)+" goroutines decoded one shared input: "+strings.SplitN(panics[0], "\n", 2)[0], rp)
+		rec.Violation(c.idx, "panic/"+label+"/concurrent-shared-input", "a decoder panicked when "+fmt.Sprint(g)+" goroutines decoded one shared input: "+strings.SplitN(panics[0], "\n", 2)[0], rp)
 	}
 	if len(differs) > 0 {
 		// string errors of mapstructure list the failing fields in map order: compare order-insensitively before alarming
@@ -377,13 +381,13 @@ func runConfigConcurrent(c *cctx, k int) {
 		}
 		if real {
 			rp["differences"] = differs
-			rec.Violation(c.idx, "config/"+f.name+"/concurrent-result-differs", "concurrent calls on one shared input gave a result different from the solo call: "+differs[0], rp)
+			rec.Violation(c.idx, "config/"+label+"/concurrent-result-differs", "concurrent calls on one shared input gave a result different from the solo call: "+differs[0], rp)
 		} else {
 			ctr["config.concurrent_error_text_order_only"]++
 		}
 	}
 	if where, viaSlice := diffSnap(before, takeSnap(input), "input"); where != "" && !viaSlice {
-		rec.Violation(c.idx, "config/"+f.name+"/input-modified", "shared input modified during concurrent decoding: "+where, rp)
+		rec.Violation(c.idx, "config/"+label+"/input-modified", "shared input modified during concurrent decoding: "+where, rp)
 	}
 }
 
